@@ -422,3 +422,77 @@ Proof.
 Qed.
 
 End Natives.
+
+(* ---- summaries stated in Properties/C07.v ---- *)
+Lemma vm_table_object :
+  forall (eq : eqfun) (D : value -> Prop),
+    (forall a b, D a -> D b -> eq a b <> None) ->
+    (forall a, D a -> kb eq a a = true) ->
+    forall t, twf eq D t ->
+      map fst (tabs t) = tkeys t /\ length (tkeys t) = length (tabs t) /\
+      titer eq t = Some (tabs t) /\
+      (forall i, tnth_key t i = nth i (map fst (tabs t)) VNil) /\
+      (forall k, D k -> tget eq t k = Some (al_get eq k (tabs t))) /\
+      (forall k v, D k -> exists t', tinsert eq t k v = Some t' /\ twf eq D t' /\
+                                      tabs t' = al_set eq k v (tabs t)) /\
+      (forall k, D k -> exists t', tremove eq t k = Some t' /\ twf eq D t' /\
+                                    tabs t' = al_remove eq k (tabs t)) /\
+      (exists t', tpop eq t = Some (t', snd (al_pop (tabs t))) /\ twf eq D t' /\
+                  tabs t' = fst (al_pop (tabs t))).
+Proof.
+  intros eq D Ht Hr t W. repeat split.
+  - exact (tabs_keys W).
+  - exact (tlen_spec W).
+  - exact (@titer_spec eq D Ht Hr t W).
+  - intros i. exact (tnth_key_spec i W).
+  - intros k Dk. exact (@tget_spec eq D Ht t k W Dk).
+  - intros k v Dk. exact (@tinsert_spec eq D Ht t k v W Dk).
+  - intros k Dk. exact (@tremove_spec eq D Ht Hr t k W Dk).
+  - exact (@tpop_spec eq D Ht Hr t W).
+Qed.
+
+Lemma vm_set_in_place_or_append :
+  forall (eq : eqfun) k v m,
+    (al_get eq k m <> None -> map fst (al_set eq k v m) = map fst m) /\
+    (al_get eq k m = None -> al_set eq k v m = m ++ [(k, v)]) /\
+    (kb eq k k = true -> al_get eq k (al_set eq k v m) = Some v).
+Proof.
+  intros eq k v m. split; [|split].
+  - exact (@al_set_keys_present eq k v m).
+  - exact (@al_set_absent eq k v m).
+  - exact (@al_get_set_same eq k v m).
+Qed.
+
+Lemma vm_table_append :
+  forall (eq : eqfun) (D : value -> Prop),
+    (forall a b, D a -> D b -> eq a b <> None) ->
+    (forall i, D (VInt i)) ->
+    (forall a i, D a -> kb eq a (VInt i) = true -> a = VInt i) ->
+    forall t v, twf eq D t ->
+      exists t' j, tappend eq t v = TOk t' /\ twf eq D t' /\ tabs t' = tabs t ++ [(VInt j, v)] /\
+        (Z.of_nat (length (tabs t)) <= j)%Z /\ al_get eq (VInt j) (tabs t) = None /\
+        forall x, (Z.of_nat (length (tabs t)) <= x < j)%Z -> al_get eq (VInt x) (tabs t) <> None.
+Proof.
+  intros eq D Ht Hi Hk t v W.
+  destruct (@tappend_spec eq D Ht Hi Hk t v W) as (t' & j & E & W' & (A1 & A2 & A3) & Habs).
+  exists t', j. split; [exact E|]. split; [exact W'|]. split; [exact Habs|]. split; [exact A1|]. split; [exact A2 | exact A3].
+Qed.
+
+Lemma vm_key_equality :
+  forall (F : fops) (h : heap),
+    (forall a b, vkey F h a -> vkey F h b -> veq0 F h a b <> None) /\
+    (forall a, vkey F h a -> kb (veq0 F h) a a = true) /\
+    (forall i, vkey F h (VInt i)) /\
+    (forall a i, vkey F h a -> kb (veq0 F h) a (VInt i) = true -> a = VInt i) /\
+    (forall h' a b, hext h h' -> vkey F h a -> vkey F h b ->
+                    vkey F h' a /\ veq0 F h' a b = veq0 F h a b) /\
+    (forall h' t, hext h h' -> twf (veq0 F h) (vkey F h) t -> twf (veq0 F h') (vkey F h') t).
+Proof.
+  intros F h. split; [exact (veq0_total F h)|]. split; [exact (veq0_refl F h)|].
+  split; [exact (vkey_int F h)|]. split; [exact (veq0_int F h)|]. split.
+  - intros h' a b X Ha Hb. split; [exact (vkey_ext F h h' a X Ha) | exact (veq0_ext F h h' a b X Ha Hb)].
+  - intros h' t X W. exact (twf_ext F h h' t X W).
+Qed.
+
+Lemma vm_tables_wf_initial : forall F, tables_wf F (st_heap fresh_state).
+Proof. intros F a t H. unfold hget in H. cbn in H. destruct (N.to_nat a); discriminate. Qed.
